@@ -24,7 +24,7 @@ FRONTS = ['decode_actisense_string', 'decode_yacht_devices_string', 'decode_basi
 
 def run(chk, program, tier):
     for r, t in (('FE-FUNNEL', 'one shared decode path'), ('FE-ROLE', 'parameter roles'), ('FE-ORIENT', 'data reversed exactly once'), ('FE-COMBINED', 'reassembly bypass only for whole-message formats'),
-                 ('ENDIAN', 'payload integer is little-endian over wire order'), ('ID-PARSE', 'identifier parse is the inverse of the layout (C05)'), ('ID-BUILD', 'identifier build/parse compose to identity (C05)')):
+                 ('ENDIAN', 'payload integer is little-endian over wire order'), ('ID-PARSE', 'identifier parse is the inverse of the layout (C05)'), ('ID-BUILD', 'identifier build/parse compose to identity (C05)'), ('STATE-DEPS', 'the shared decode path depends only on configuration, source map and reassembly buffers')):
         chk.rule(r, t)
     funnel(chk, program)
     hexid = A.AStr([('hexbytes', list(reversed([A.norm_byte(W.ID_BITS[8 * i: 8 * i + 8] + [0] * max(0, 8 * i + 8 - 29)) for i in range(4)])))])
@@ -106,6 +106,9 @@ def run(chk, program, tier):
     from .c16 import _Sub
     from . import c05
     c05.run(_Sub(chk, {'ID-PARSE', 'ID-BUILD'}), program, tier)
+    # the shared path keeps no memory of *how* earlier messages arrived (C16 STATE-DEPS): otherwise a frame-level and a message-level format disagree
+    from .. import rules_iso
+    rules_iso.state_deps(_Sub(chk, {'STATE-DEPS'}), program)
 
 def funnel(chk, program):
     m = program.mod('decoder')
